@@ -15,7 +15,7 @@ AuthModes  == {"digest", "none", "basic", "reject", "digest_unknown", "digest_ba
 \* fault kinds at a request: HTTP status, connection reset before the headers, body cut short;
 \* fault kinds at redaction of file k: payload is not gzip, payload holds an over-long line, gzip stream cut (valid download of a
 \* damaged archive), <out>.<k> cannot be created
-ReqFaults  == {"status", "reset", "cut"}
+ReqFaults  == {"status", "reset", "cut", "notmp"}          \* notmp: the answer is fine, but no file can be created in the temp directory
 FileFaults == {"notgzip", "longline", "gzcut", "outdir", "outfull"}     \* outfull: <out>.<k> can be created but not written
 NoFault    == [at |-> 0, kind |-> "none"]
 
@@ -44,7 +44,7 @@ AtlasInit ==
   /\ pc = (IF keyOk THEN "send" ELSE "keyfail") /\ (~keyOk => cli) /\ cur = 0 /\ reqLog = <<>> /\ tmp = {} /\ reg = <<>> /\ outs = {} /\ touched = {} /\ retried = FALSE /\ exit = -1
   /\ fault.at \in 0..n
   /\ (fault.kind = "none" => fault.at = 0)
-  /\ (fault.kind \in FileFaults \cup {"cut"} => fault.at >= 1)
+  /\ (fault.kind \in FileFaults \cup {"cut", "notmp"} => fault.at >= 1)
   /\ (fault.kind \in FileFaults => cli)
 
 \* the key file of --encrypt is unusable: the run ends before anything is requested or downloaded
@@ -86,6 +86,7 @@ Response ==
   /\ pc = "response"
   /\ IF FaultHere({"status", "reset"}) THEN pc' = "dlfail" /\ UNCHANGED <<cur, tmp>>
      ELSE IF cur = 0 THEN pc' = "send" /\ cur' = 1 /\ UNCHANGED tmp             \* cluster description parsed: hosts in order
+     ELSE IF FaultHere({"notmp"}) THEN pc' = "dlfail" /\ UNCHANGED <<cur, tmp>>   \* os.CreateTemp fails: nothing was created
      ELSE pc' = "copy" /\ tmp' = tmp \cup {cur} /\ UNCHANGED cur                 \* os.CreateTemp
   /\ retried' = FALSE
   /\ UNCHANGED <<envVars, reqLog, reg, outs, touched, exit>>
